@@ -143,7 +143,9 @@ class SyncedList(SyncedCollection, MutableSequence):
                 # inserting at the beginning will require reconverting all
                 # elements of the data.
                 for i in range(min(len(self), len(data))):
-                    if data[i] == self._data[i]:
+                    # Equal values of different types (1, 1.0 and True) are
+                    # different data.
+                    if data[i] == self._data[i] and type(data[i]) is type(self._data[i]):
                         continue
                     # A value of None must replace the nested collection
                     # (for _update, None means "leave the data unchanged").
